@@ -25,7 +25,7 @@ structure Inv (s : State) : Prop where
 
 /-- Start() is only called from one thread (thread 0): what `operator.go` does. -/
 def Label.singleStarter : Label → Bool
-  | .startRead c _ | .startSpawn c | .startWrite c => c == 0
+  | .startRead c _ | .startSpawn c _ | .startWrite c _ => c == 0
   | _ => true
 
 theorem wstep_frame (cfg : Cfg) (done : Bool) (q : QName) (qs qs' : QState) (pc pc' : Pc) (a : WAct)
@@ -410,11 +410,13 @@ theorem step_inv (cfg : Cfg) (hfix : cfg.fix = true) (s s' : State) (l : Label)
             · exact h
             · rw [hidle] at h; simp at h
     · simp at h
-  | startSpawn c =>
+  | startSpawn c q0 =>
     simp [Label.singleStarter] at hl; subst hl
     simp only [step] at h
     split at h
     · rename_i q hsaw
+      split at h
+      · simp at h
       split at h
       · rename_i qs0 hq
         simp at h; subst h
@@ -449,11 +451,13 @@ theorem step_inv (cfg : Cfg) (hfix : cfg.fix = true) (s s' : State) (l : Label)
           simp [updC] at hcl
       · simp at h
     all_goals simp at h
-  | startWrite c =>
+  | startWrite c q0 =>
     simp [Label.singleStarter] at hl; subst hl
     simp only [step] at h
     split at h
     · rename_i q hsp
+      split at h
+      · simp at h
       split at h
       · rename_i qs0 hq
         simp at h; subst h
